@@ -362,6 +362,8 @@ func run(in string) (string, string) {
 	switch f[0] {
 	case "X", "B", "H":
 		return runT(&world[int]{enc: func(c int) int { return c }}, f, in)
+	case "LNf", "LNg", "LNa", "LNr": // round 7: sets with NaN members (round7.go; not replayed on the model)
+		return runNaN(f, in)
 	case "Si", "Li": // (L kinds, round 5: the same element types on sets of 2^15..2^16+1 members; not replayed on the model)
 		return runT(&world[int]{enc: func(c int) int { return c }, scale: true}, f, in)
 	case "Lx":
@@ -1127,6 +1129,7 @@ func main() {
 	} else if o.Prop == "C18" || o.Prop == "" {
 		g.exhaustive()
 		g.round6X() // (single-use sequences on small int sets: early, so that the first failing line is a small one)
+		g.round7()  // (NaN members in the float-typed and any-typed sets: small lines)
 		g.round5()  // (multi-operand calls on small int sets: before the big cases, so that the first failing line is a small one)
 		g.round6()  // (the sequence kinds on every element type)
 		g.big()
@@ -1136,5 +1139,5 @@ func main() {
 			g.history()
 		}
 	}
-	w.Close(o, rule, nil)
+	w.Close(o, rule7+rule, nil)
 }
